@@ -1,5 +1,8 @@
-"""Throw-away prototype of the abstract interpreter described in /verif/DESIGN.md §2.3.
-Not part of the committed machinery; used only to measure feasibility and cost."""
+"""ABSINT — path-recording abstract interpreter / partial evaluator over the AST of /repo's source
+(DESIGN.md §2.3).  It never imports or executes dep_logic or packaging: every value is an abstract
+value of this module (AObj instances of ClassInfo built from ClassDef nodes, opaque VTok version tokens,
+Sym symbolic values with an operation whitelist, plain Python constants for str/int/bool/list/tuple/dict).
+Unsupported constructs raise AnalysisError (=> exit 2, fail closed)."""
 from __future__ import annotations
 
 import ast
@@ -18,8 +21,9 @@ class PyRaise(Exception):
 
 
 class _Return(Exception):
-    def __init__(self, value):
+    def __init__(self, value, lineno=None):
         self.value = value
+        self.lineno = lineno
 
 
 class _Break(Exception):
@@ -149,12 +153,13 @@ class ClassInfo:
 
 
 class AObj:
-    __slots__ = ("cls", "f", "memo")
+    __slots__ = ("cls", "f", "memo", "site")
 
     def __init__(self, cls):
         self.cls = cls
         self.f = {}
         self.memo = {}
+        self.site = None
 
     def __repr__(self):
         return f"{self.cls.name}({', '.join(f'{k}={v!r}' for k, v in self.f.items())})"
@@ -195,6 +200,33 @@ class AIter:
         return v
 
 
+class ASet:
+    """Abstract built-in set: list-backed, membership through the *interpreted* __eq__ (py_eq).
+    Iteration order is insertion order (one of the orders a real hash set may produce)."""
+
+    def __init__(self, interp, items=()):
+        self.it = interp
+        self.items = []
+        for x in items:
+            self.add(x)
+
+    def has(self, x):
+        return any(self.it.py_eq(x, y) for y in self.items)
+
+    def add(self, x):
+        if not self.has(x):
+            self.items.append(x)
+
+    def __iter__(self):
+        return iter(list(self.items))
+
+    def __len__(self):
+        return len(self.items)
+
+    def __repr__(self):
+        return "{" + ", ".join(map(repr, self.items)) + "}"
+
+
 class Module:
     def __init__(self, name, path):
         self.name = name
@@ -226,12 +258,17 @@ class Interp:
         self.pkg = pkg
         self.modules = {}
         self.trace = []
+        self.last_return = None
         self.steps = 0
         self.opaque_calls = {}
         self.overrides = {}
         self.schedule = []
         self.decisions = []
         self.builtins = self._make_builtins()
+        self._stubs = None
+        self.fstack = []
+        self.funcs_seen = set()
+        self.max_steps = None
 
     def run_forks(self, thunk):
         """Enumerate all outcomes of `thunk` over symbolic-boolean decisions (DFS over schedules)."""
@@ -279,7 +316,14 @@ class Interp:
         return m
 
     def ext_module(self, name):
-        stubs = {
+        if self._stubs is None:
+            self._stubs = self._make_stubs()
+        if name in self._stubs:
+            return self._stubs[name]
+        raise AnalysisError(f"no stub for external module {name}")
+
+    def _make_stubs(self):
+        return {
             "typing": {"TYPE_CHECKING": False, "cast": ("builtin", "cast"), "Any": External("Any"),
                        "ClassVar": External("ClassVar"), "Protocol": External("Protocol"),
                        "TypeVar": lambda *a, **k: External("TypeVar"), "Union": External("Union"),
@@ -307,9 +351,6 @@ class Interp:
             "packaging.specifiers": {"SpecifierSet": External("SpecifierSet"), "Specifier": External("Specifier"),
                                      "InvalidSpecifier": EXC["PkgInvalidSpecifier"]},
         }
-        if name in stubs:
-            return stubs[name]
-        raise AnalysisError(f"no stub for external module {name}")
 
     def exec_top(self, st, m):
         if isinstance(st, (ast.Import,)):
@@ -469,12 +510,14 @@ class Interp:
 
     def exec_stmt(self, st, env, m):
         self.steps += 1
+        if self.max_steps is not None and self.steps > self.max_steps:
+            raise AnalysisError(f"step budget exceeded at {m.name}:{st.lineno} (non-terminating slice?)")
         t = type(st)
         if t is ast.Return:
-            raise _Return(self.eval(st.value, env, m) if st.value is not None else None)
+            raise _Return(self.eval(st.value, env, m) if st.value is not None else None, st.lineno)
         if t is ast.If:
             c = self.truth(self.eval(st.test, env, m))
-            self.trace.append((st.lineno, c))
+            self.trace.append((self.fstack[-1] if self.fstack else m.name, st.lineno, c))
             self.exec_block(st.body if c else st.orelse, env, m)
             return
         if t is ast.Assign:
@@ -539,7 +582,7 @@ class Interp:
                     if h.type is None or self.exc_match(pr.exc, self.resolve(self.eval(h.type, env, m))):
                         if h.name:
                             env.vars[h.name] = pr.exc
-                        self.trace.append((h.lineno, "except"))
+                        self.trace.append((self.fstack[-1] if self.fstack else m.name, h.lineno, "except"))
                         self.exec_block(h.body, env, m)
                         break
                 else:
@@ -655,9 +698,15 @@ class Interp:
             return True
         if isinstance(v, VTok):
             raise AnalysisError("truth value of version token")
+        if isinstance(v, ASet):
+            return len(v.items) > 0
+        if isinstance(v, AIter):
+            return True
         return bool(v)
 
     def iterate(self, v):
+        if isinstance(v, ASet):
+            return list(v.items)
         if isinstance(v, (list, tuple, AIter, range, set, frozenset, dict, str)):
             return v if isinstance(v, AIter) else list(v)
         if isinstance(v, AObj):
@@ -822,6 +871,12 @@ class Interp:
                         return res
             raise PyRaise(BuiltinExcValue(EXC["TypeError"], (f"unsupported operand {fwd}", a, b)))
         t = type(op)
+        if isinstance(a, ASet) or isinstance(b, ASet):
+            nm = {ast.BitAnd: "intersection", ast.BitOr: "union", ast.Sub: "difference",
+                  ast.BitXor: "symmetric_difference"}.get(t)
+            if nm is None or not isinstance(a, (ASet, set, frozenset)) or not isinstance(b, (ASet, set, frozenset)):
+                raise PyRaise(BuiltinExcValue(EXC["TypeError"], ("set operator",)))
+            return self.setmethod(a, nm, [b])
         if t is ast.Add:
             return a + b
         if t is ast.Sub:
@@ -862,6 +917,18 @@ class Interp:
         return MISSING
 
     def py_eq(self, a, b):
+        if isinstance(a, ASet) or isinstance(b, ASet):
+            if isinstance(a, (set, frozenset)):
+                a = ASet(self, a)
+            if isinstance(b, (set, frozenset)):
+                b = ASet(self, b)
+            if not (isinstance(a, ASet) and isinstance(b, ASet)):
+                if self.is_absset(a) or self.is_absset(b):
+                    x, y = (a, b) if isinstance(a, ASet) else (b, a)
+                    ys = list(self.iterate(y))
+                    return len(x.items) == len(ys) and all(x.has(v) for v in ys)
+                return False
+            return len(a.items) == len(b.items) and all(b.has(v) for v in a.items)
         if self.is_absset(a) and a.cls.lookup("__eq__")[0] is MISSING:
             if not (self.is_absset(b) or isinstance(b, (set, frozenset))):
                 return False
@@ -890,6 +957,8 @@ class Interp:
         return a == b
 
     def contains(self, container, item):
+        if isinstance(container, ASet):
+            return container.has(item)
         if isinstance(container, AObj):
             r, _ = container.cls.lookup("__contains__")
             if r is MISSING:
@@ -928,6 +997,11 @@ class Interp:
         return True
 
     def order(self, t, a, b):
+        if isinstance(a, Sym) or isinstance(b, Sym):
+            x = a if isinstance(a, Sym) else b
+            if not hasattr(x, "sym_order"):
+                raise AnalysisError(f"ordering not whitelisted on symbolic {x!r}")
+            return self.truth(x.sym_order(t, a, b))
         if isinstance(a, VTok) and isinstance(b, VTok):
             a, b = a.rank, b.rank
         elif isinstance(a, VTok) or isinstance(b, VTok):
@@ -975,7 +1049,13 @@ class Interp:
         return self._seq(n.elts, env, m)
 
     def e_Set(self, n, env, m):
-        return set(self._seq(n.elts, env, m))
+        return self.mkset(self._seq(n.elts, env, m))
+
+    def mkset(self, items):
+        items = list(items)
+        if all(isinstance(x, (str, int, bool, type(None))) for x in items):
+            return set(items)
+        return ASet(self, items)
 
     def e_Dict(self, n, env, m):
         d = {}
@@ -996,6 +1076,13 @@ class Interp:
             st = self.eval(n.slice.step, env, m) if n.slice.step else None
             return obj[lo:hi:st]
         idx = self.eval(n.slice, env, m)
+        if isinstance(obj, AObj):
+            r, _ = obj.cls.lookup("__getitem__")
+            if r is MISSING:
+                raise PyRaise(BuiltinExcValue(EXC["TypeError"], ("not subscriptable", obj.cls.name)))
+            return self.call(Bound(r, obj), [idx], {})
+        if isinstance(obj, (VTok, Sym)):
+            raise AnalysisError(f"subscript on opaque value {obj!r}")
         try:
             return obj[idx]
         except IndexError:
@@ -1028,7 +1115,7 @@ class Interp:
         return AIter(self.e_ListComp(n, env, m))
 
     def e_SetComp(self, n, env, m):
-        return set(self.e_ListComp(n, env, m))
+        return self.mkset(self.e_ListComp(n, env, m))
 
     def e_Lambda(self, n, env, m):
         return Func(n, m, env, None, "plain")
@@ -1069,7 +1156,10 @@ class Interp:
         if isinstance(f, Func):
             return self.call_func(f, list(args), kwargs)
         if isinstance(f, ClassInfo):
-            return self.construct(f, args, kwargs)
+            o = self.construct(f, args, kwargs)
+            if n is not None and isinstance(o, AObj) and o.site is None:
+                o.site = (self.fstack[-1] if self.fstack else (m.name if m else "?"), n.lineno)
+            return o
         if isinstance(f, tuple) and f and f[0] == "builtin":
             return getattr(self, "b_" + f[1])(*args, **kwargs)
         if isinstance(f, tuple) and f and f[0] == "pymethod":
@@ -1119,10 +1209,19 @@ class Interp:
             raise PyRaise(BuiltinExcValue(EXC["TypeError"], ("unexpected kwargs", tuple(kwargs), func.qualname)))
         if isinstance(node, ast.Lambda):
             return self.eval(node.body, env, func.module)
+        qn = func.module.name + ":" + func.qualname
+        self.fstack.append(qn)
+        self.funcs_seen.add(qn)
+        if len(self.fstack) > 400:
+            self.fstack.pop()
+            raise AnalysisError(f"call depth exceeded in {func.qualname}")
         try:
             self.exec_block(node.body, env, func.module)
         except _Return as r:
+            self.last_return = (func.module.name + ":" + func.qualname, r.lineno)
             return r.value
+        finally:
+            self.fstack.pop()
         return None
 
     def construct(self, cls, args, kwargs):
@@ -1183,16 +1282,53 @@ class Interp:
         if isinstance(obj, dict) and name in ("get", "items", "keys", "values", "update"):
             r = getattr(obj, name)(*args, **kwargs)
             return list(r) if name in ("items", "keys", "values") else r
-        if isinstance(obj, set):
-            return getattr(obj, name)(*args, **kwargs)
+        if isinstance(obj, (set, frozenset, ASet)):
+            return self.setmethod(obj, name, args)
         raise AnalysisError(f"method {type(obj).__name__}.{name}")
+
+    def setmethod(self, obj, name, args):
+        a = obj if isinstance(obj, ASet) else ASet(self, obj)
+        others = [x if isinstance(x, ASet) else ASet(self, self.iterate(x)) for x in args] if name not in (
+            "add", "discard", "remove") else []
+        if name == "issubset":
+            return all(others[0].has(v) for v in a.items)
+        if name == "issuperset":
+            return all(a.has(v) for v in others[0].items)
+        if name == "isdisjoint":
+            return not any(others[0].has(v) for v in a.items)
+        if name == "intersection":
+            return self.mkset([v for v in a.items if all(o.has(v) for o in others)])
+        if name == "union":
+            return self.mkset(list(a.items) + [v for o in others for v in o.items])
+        if name == "difference":
+            return self.mkset([v for v in a.items if not any(o.has(v) for o in others)])
+        if name == "symmetric_difference":
+            o = others[0]
+            return self.mkset([v for v in a.items if not o.has(v)] + [v for v in o.items if not a.has(v)])
+        if name == "copy":
+            return self.mkset(a.items)
+        if name == "add":
+            if isinstance(obj, ASet):
+                obj.add(args[0])
+            else:
+                if isinstance(args[0], (AObj, VTok)):
+                    raise AnalysisError("adding abstract object to concrete set")
+                obj.add(args[0])
+            return None
+        if name in ("discard", "remove"):
+            if isinstance(obj, ASet):
+                obj.items = [v for v in obj.items if not self.py_eq(v, args[0])]
+            else:
+                obj.discard(args[0])
+            return None
+        raise AnalysisError(f"set method {name}")
 
     # ------------------------------------------------------------------ builtins
     def _make_builtins(self):
         b = {k: ("builtin", k) for k in (
             "len", "isinstance", "tuple", "list", "iter", "zip", "enumerate", "any", "all", "map", "sorted",
             "max", "min", "sum", "str", "int", "range", "type", "set", "filter", "bool", "next", "hasattr",
-            "reversed", "repr")}
+            "reversed", "repr", "hash", "frozenset", "dict", "abs", "getattr", "callable", "id", "divmod")}
         b.update({"None": None, "True": True, "False": False, "NotImplemented": NotImplemented,
                   "object": External("object"), "property": ("deco", "property")})
         b.update({k: v for k, v in EXC.items()})
@@ -1204,6 +1340,8 @@ class Interp:
             return self.call(Bound(r, x), [], {})
         if isinstance(x, AIter):
             raise PyRaise(BuiltinExcValue(EXC["TypeError"], ("len of iterator",)))
+        if isinstance(x, ASet):
+            return len(x.items)
         return len(x)
 
     def b_isinstance(self, x, c):
@@ -1213,7 +1351,8 @@ class Interp:
         if isinstance(c, ClassInfo):
             return isinstance(x, AObj) and c in x.cls.mro
         if isinstance(c, tuple) and c[0] == "builtin":
-            py = {"str": str, "tuple": tuple, "list": list, "set": set, "int": int, "bool": bool}.get(c[1])
+            py = {"str": str, "tuple": tuple, "list": list, "set": (set, ASet), "int": int, "bool": bool,
+                  "dict": dict, "frozenset": (frozenset, ASet)}.get(c[1])
             if py is None:
                 raise AnalysisError(f"isinstance against builtin {c[1]}")
             return isinstance(x, py)
@@ -1232,11 +1371,37 @@ class Interp:
         return list(self.iterate(x))
 
     def b_set(self, x=()):
-        out = []
-        for i in self.iterate(x):
-            if not any(self.py_eq(i, j) for j in out):
-                out.append(i)
-        return out  # list-backed; membership uses py_eq
+        return self.mkset(self.iterate(x))
+
+    def b_frozenset(self, x=()):
+        return self.mkset(self.iterate(x))
+
+    def b_hash(self, x):
+        return self.py_hash(x)
+
+    def py_hash(self, x):
+        """Abstract hash: a structural key such that interpreted-equal values of the modelled kinds
+        get equal keys iff the class's (generated or hand-written) __hash__ says so."""
+        if isinstance(x, AObj):
+            r, owner = x.cls.lookup("__hash__")
+            if r is not MISSING and isinstance(r, Func):
+                return ("h", self.call(Bound(r, x), [], {}))
+            if self.is_absset(x):
+                return ("set", frozenset(self.py_hash(v) for v in self.iterate(x)))
+            dcs = [c for c in x.cls.mro if isinstance(c, ClassInfo) and c.dc is not None]
+            if dcs and (dcs[0].dc.get("unsafe_hash") or (dcs[0].dc.get("frozen") and dcs[0].dc.get("eq", True))):
+                flds = [f for f in x.cls.all_fields() if (f[3] if f[3] is not None else f[2])]
+                return ("dc", tuple(self.py_hash(x.f[f[0]]) for f in flds))
+            if getattr(x.cls, "is_enum", False):
+                return ("enum", x.cls.name, x.f["name"])
+            return ("id", id(x))
+        if isinstance(x, (tuple,)):
+            return ("t", tuple(self.py_hash(v) for v in x))
+        if isinstance(x, VTok):
+            return ("v", x.rank)
+        if isinstance(x, (list, dict, set, ASet)):
+            raise PyRaise(BuiltinExcValue(EXC["TypeError"], ("unhashable",)))
+        return ("c", x)
 
     def b_iter(self, x):
         return x if isinstance(x, AIter) else AIter(self.iterate(x))
@@ -1269,12 +1434,29 @@ class Interp:
             return AIter(v for v in self.iterate(x) if self.truth(v))
         return AIter(v for v in self.iterate(x) if self.truth(self.call(f, [v], {})))
 
+    def _lt(self, a, b):
+        """interpreted a < b (used by sorted/min/max: they only use __lt__)."""
+        if isinstance(a, tuple) and isinstance(b, tuple):
+            for x, y in zip(a, b):
+                if not self.py_eq(x, y):
+                    return self._lt(x, y)
+            return len(a) < len(b)
+        return self.order(ast.Lt, a, b)
+
+    def _sort(self, keyed, reverse):
+        import functools
+        def cmp(p, q):
+            if self._lt(p[0], q[0]):
+                return -1
+            if self._lt(q[0], p[0]):
+                return 1
+            return 0
+        return sorted(keyed, key=functools.cmp_to_key(cmp), reverse=reverse)
+
     def b_sorted(self, x, key=None, reverse=False):
         items = list(self.iterate(x))
-        if key is None:
-            return sorted(items, reverse=reverse)
-        return [v for _, _, v in sorted(((self.call(key, [v], {}), i, v) for i, v in enumerate(items)),
-                                        key=lambda t: (t[0], t[1]), reverse=reverse)]
+        keyed = [((self.call(key, [v], {}) if key is not None else v), v) for v in items]
+        return [v for _, v in self._sort(keyed, reverse)]
 
     def _minmax(self, fn, args, key, default):
         items = list(self.iterate(args[0])) if len(args) == 1 else list(args)
@@ -1282,10 +1464,16 @@ class Interp:
             if default is MISSING:
                 raise PyRaise(BuiltinExcValue(EXC["ValueError"], ("empty",)))
             return default
-        if key is None:
-            return fn(items)
-        keys = [self.call(key, [v], {}) for v in items]
-        return items[keys.index(fn(keys))]
+        keys = [self.call(key, [v], {}) if key is not None else v for v in items]
+        best = 0
+        for i in range(1, len(items)):
+            if fn is min:
+                if self._lt(keys[i], keys[best]):
+                    best = i
+            else:
+                if self._lt(keys[best], keys[i]):
+                    best = i
+        return items[best]
 
     def b_max(self, *args, key=None, default=MISSING):
         return self._minmax(max, args, key, default)
@@ -1303,6 +1491,31 @@ class Interp:
 
     def b_repr(self, x):
         return repr(x)
+
+    def b_dict(self, x=(), **kw):
+        d = dict(x) if isinstance(x, dict) else {k: v for k, v in self.iterate(x)}
+        d.update(kw)
+        return d
+
+    def b_abs(self, x):
+        return abs(x)
+
+    def b_divmod(self, a, b):
+        return divmod(a, b)
+
+    def b_callable(self, x):
+        return isinstance(x, (Func, Bound, ClassInfo)) or callable(x)
+
+    def b_id(self, x):
+        return id(x)
+
+    def b_getattr(self, obj, name, default=MISSING):
+        try:
+            return self.getattr(obj, name)
+        except PyRaise as e:
+            if default is not MISSING and isinstance(e.exc, BuiltinExcValue) and e.exc.cls is EXC["AttributeError"]:
+                return default
+            raise
 
     def b_int(self, x=0):
         try:
